@@ -8,6 +8,7 @@ from . import rules_units as U
 from . import rules_guard as GU
 from . import rules_serde as SE
 from . import rules_encaps as EN
+from . import rules_cursor as CU
 
 TRUSTED_BASE = [
     "rustc nightly (type checker, MIR construction at mir-opt-level=0, compile_fail diagnostics)",
@@ -55,6 +56,8 @@ def _run(name, f):
         r = [SE.r_serde(f)[0]]
     elif name == "encaps":
         r = [EN.r_encaps(f)[0]]
+    elif name == "cursor":
+        r = [CU.r_cursor(f)[0]]
     else:
         mod = EXTRA.get(name)
         if mod is None:
@@ -135,7 +138,7 @@ prop("C02", [sel("guard", fn=r"(Index|IndexMut|::col$|::col_mut$| as TooDeeOps(M
 prop("C03", [sel("zero", fn=VIEWS), sel("units", fn=VIEWS), sel("encaps", fn=r"^TooDeeView")],
      "Views, structural clauses: (R-ZERO) every TooDeeView/TooDeeViewMut construction site receives dimensions that are both zero or both non-zero - through the computed (not assumed) summary of the shared window validator, or through the zero-rule guard of the slice constructors; (R-UNITS) start/end/stride are used with the right axis; fields of the view types are module-private. R-LAYOUT (L-WINDOW / L-EMPTY / L-PREFIX on the slice range handed to get_unchecked) is decided by the layout engine when present.",
      declined=["cell-by-cell equality of view and parent (runtime values)"])
-prop("C04", [sel("encaps", fn=r"^(TooDeeViewMut|RowsMut|ColMut|<impls>)"), sel("units", fn=r"TooDeeViewMut"), sel("dup"), sel("take", fn=r"^(RowsMut|ColMut)")],
+prop("C04", [sel("encaps", fn=r"^(TooDeeViewMut|RowsMut|ColMut|<impls>)"), sel("units", fn=r"TooDeeViewMut"), sel("dup"), sel("take", fn=r"^(RowsMut|ColMut)"), sel("cursor", fn=r"^(RowsMut|ColMut)( |:|$)|<rule>")],
      "Confinement to a mutable view, structural clauses: the view's fields are module-private and RowsMut/ColMut fields crate-private, TooDeeViewMut/RowsMut/ColMut are not Clone (no second writer), the generic algorithm layers (ops/sort/translate/copy) are written against the trait only and use only permutation primitives (R-DUP); the mutable cursors never read a taken slice (R-TAKE). The stride-aware address forms of the view's own writers are decided by R-LAYOUT / R-CURSOR when present.",
      declined=["effect inside the rectangle equals the effect on an owned copy (runtime values)"])
 prop("C05", [sel("shape", rules=["R-HIDE", "R-LEAK", "R-LEAK-DRAIN"]), sel("dup"), sel("zstptr")],
@@ -147,11 +150,11 @@ prop("C06", [sel("guard", fn=INSERT), sel("zero", fn=INSERT), sel("shape", fn=IN
 prop("C07", [sel("guard", fn=REMOVE), sel("deleg", fn=r"TooDee::pop"), sel("zero", fn=REMOVE), sel("shape", fn=REMOVE), sel("encaps", fn=r"^DrainCol")],
      "clauses only: remove_row/remove_col/pop_* - (R-GUARD) index < dimension of its unit; (R-DELEG) pop_* are guarded on non-emptiness and pass dim-1; (R-ZERO) removing the last line zeroes both dimensions; (R-LEAK, R-LEAK-DRAIN) the returned drain may be leaked at any stage; (R-UNWIND) the drain's destructor restores a product-form array even when an element's Drop panics; DrainCol implements Iterator + DoubleEndedIterator + ExactSizeIterator.",
      declined=["the compaction arithmetic of DrainCol's destructor and the order of yielded elements (DESIGN 2.1; the latter follows from C09 for the embedded Col cursor)"])
-prop("C08", [sel("take", fn=ROWCUR), sel("ovf", fn=ROWCUR)],
-     "Row cursors, structural clauses: (R-TAKE) no read of the cursor slice after mem::take; (R-OVF) nth/nth_back form n*(cols+skip_cols) with overflow detection that reaches the emptying branch. R-CURSOR (each update function equals the ideal strided-cursor update as a normalised value graph) is decided by the cursor engine when present.",
+prop("C08", [sel("take", fn=ROWCUR), sel("ovf", fn=ROWCUR), sel("cursor", fn=r"^(Rows|RowsMut)( |:|$)|<rule>")],
+     "Row cursors: (R-CURSOR) for Rows and RowsMut each of next, next_back, nth, nth_back, last, count, size_hint is evaluated path-wise over canonical polynomials and slice intervals and its (result, remaining slice) must equal the ideal strided-cursor update with item width cols and gap skip_cols; because the cursor state is one slice the ideal post-state is unique, so per-function conformance plus the recorded two-line induction covers every interleaving and every n (the overflow flag is a path atom); (R-TAKE) no read of the cursor slice after mem::take; (R-OVF) nth/nth_back multiply n with overflow detection that reaches the emptying branch.",
      declined=["fold/rfold are std's provided methods over next/next_back"])
-prop("C09", [sel("take", fn=COLCUR), sel("ovf", fn=COLCUR), sel("guard", rules=["R-ARITH"], fn=COLCUR), sel("guard", fn=r"(::col$|::col_mut$| as TooDeeOps(Mut)?::col|get_col_params)")],
-     "Column cursors, structural clauses: R-TAKE, R-OVF as for rows; (R-ARITH) indexing multiplies with overflow detection and uses a checked slice index; (R-GUARD) col(c)/col_mut(c) panic for c >= num_cols on the three receivers.  R-CURSOR when present.")
+prop("C09", [sel("cursor", fn=r"^(Col|ColMut)( |:|$)|<rule>"), sel("take", fn=COLCUR), sel("ovf", fn=COLCUR), sel("guard", rules=["R-ARITH"], fn=COLCUR), sel("guard", fn=r"(::col$|::col_mut$| as TooDeeOps(Mut)?::col|get_col_params)")],
+     "Column cursors: R-CURSOR (as C08 with item width 1 and gap skip) for Col and ColMut; R-TAKE, R-OVF as for rows; (R-ARITH) indexing multiplies with overflow detection and uses a checked slice index; (R-GUARD) col(c)/col_mut(c) panic for c >= num_cols on the three receivers. ")
 prop("C10", [sel("flat_struct"), sel("take", fn=r"^RowsMut")],
      "Cell iterators, structural clauses: (R-FLAT f2) front-direction methods of FlattenExact only advance inner iterators from the front, back-direction methods only from the back, fold/rfold chain front row, remaining rows, back row and fold in the matching direction; unsafe code is forbidden in the adaptor.  R-FLATSEQ (denotational conformance of next/next_back/nth/nth_back) is decided by the flat engine when present.",
      declined=["third-party TooDeeIterator implementations honouring their contract"])
